@@ -604,6 +604,41 @@ pub fn shard_run_grammar(prop: &str, tier: &str, seed: u64, replay_case: Option<
             }
         })
     };
+    // C20 only: a server with an allow-list, so that 403 refusals are produced as well
+    if prop == "C20" && replay_case.map(|c| c >= 30_000_000 && c < 40_000_000).unwrap_or(true) {
+        let probe_clients = Fixture::new(Backend::Mem, seed, None).map(|f| f.clients.clone());
+        if let Ok(cl) = probe_clients {
+            let list: HashSet<Uuid> = [cl[0], cl[2]].into_iter().collect();
+            if let Ok(mut fx) = Fixture::new(Backend::Mem, seed, Some(list)) {
+                fx.subj.set_tap(mk_tap(tally.clone(), c20_found.clone()));
+                let mut rng = Rng::new(seed).fork(0xE5A);
+                for (gi, g) in grams.iter().enumerate() {
+                    let req = g.build(&fx, &mut rng);
+                    let mine = match replay_case {
+                        Some(c) => c == 30_000_000 + gi,
+                        None => shard.mine(gi) && (gi % 3 == 0 || matches!(g.cid, Cid::Unknown)),
+                    };
+                    if !mine || !crate::http::HttpApp::expressible(&req) {
+                        continue;
+                    }
+                    let resp = fx.subj.http(&req);
+                    cov.evaluations += 1;
+                    out.executed += 1;
+                    cov.hit(format!("allowlisted-server|{:?}|{}|status={}", g.route, METHODS[g.method], resp.status));
+                    if resp.status == 200 && g.route == Route::AddVersion && METHODS[g.method] == "POST" {
+                        if let Some(v) = resp.header("X-Version-Id").and_then(|s| Uuid::parse_str(s).ok()) {
+                            fx.chains[0].push(v);
+                        }
+                    }
+                    if let Some((rq, rs)) = c20_found.lock().unwrap().clone() {
+                        out.found.push(found("C20", format!("[mem/http with allow-list] response to {rq} does not forbid caching (no Cache-Control: no-store): {rs}"), json!({"origin": "grammar-allowlist", "case": 30_000_000 + gi, "gram": g.key()})));
+                        out.cov = cov;
+                        return out;
+                    }
+                }
+            }
+        }
+    }
     for (bi, backend) in backends.iter().enumerate() {
         // the SQLite fixture sees a tenth of the grammar in quick mode (requests that reach the
         // storage cost ~100x more there)
@@ -757,7 +792,7 @@ pub fn finalize_grammar(prop: &str, tier: &str, out: ShardOut, is_replay: bool) 
     if prop == "C15" {
         required.extend(["large:AddVersion:limit/one-chunk:status=200", "large:AddVersion:limit+1/one-chunk:status=400", "large:AddSnapshot:limit+1/limit-then-1:status=400", "MustRefuse", "MustServe", "Ambiguous"]);
     } else {
-        required.extend(["|409", "|410", "|500", "unknown-route|"]);
+        required.extend(["|409", "|410", "|500", "|403", "unknown-route|"]);
     }
     let verdict = if !out.found.is_empty() {
         Verdict::Violated(out.found)
